@@ -83,6 +83,43 @@ func C13(c *Ctx) int {
 		c.Infraf("timer runs: %v", err)
 	}
 	c.validateTimerRuns(fs, dir, defFile, grid, maxAdv, raw, job, true)
+	// the clock jumps while the timer goroutine is still arming (no quiescent stepping for the
+	// first change): nothing that becomes due may be lost
+	{
+		var base []drive.TimerSchedule
+		seenDef := map[int]int{}
+		for _, s := range scheds {
+			// (only definitions with absolute times: a duration, or a cycle without explicit start,
+			// counts from "creation time", which is ambiguous when the clock jumps during creation)
+			abs := defs[s.Def].Kind == "date" || (defs[s.Def].Kind == "cycle" && defs[s.Def].HasStart)
+			if abs && len(s.Steps) > 0 && s.Steps[0].Op == "set" && s.Steps[0].Fires >= 1 && seenDef[s.Def] < 6 {
+				seenDef[s.Def]++
+				base = append(base, s)
+			}
+		}
+		reps := 150
+		if !c.Quick() {
+			reps = 800
+		}
+		rj := &Job{Opts: JobOpts{Mode: "timer", Seed: c.Seed, TMs: 3000}, TimerDefs: defs}
+		for k := 0; k < reps; k++ {
+			for i, s := range base {
+				s.Race = 1 + (k*7+i)%60
+				rj.Timer = append(rj.Timer, s)
+				rj.Schedules = append(rj.Schedules, drive.Schedule{})
+			}
+		}
+		if len(rj.Timer) > 0 {
+			rraw, err := ReplayAllRaw(c.sub("timer-race-runs"), rj, c.Workers)
+			if err != nil {
+				c.Infraf("timer race runs: %v", err)
+			}
+			// (a firing that fails to come although the clock has stopped beyond its due time is
+			// not a matter of scheduling: the harness waited 3 s for it; no confirmation re-run)
+			c.validateTimerRuns(fs, c.sub("timer-race"), defFile, grid, maxAdv, rraw, rj, false)
+			c.Extra["arming_race_runs"] = len(rj.Timer)
+		}
+	}
 	if len(scheds) > 0 {
 		c.Samples = append(c.Samples, map[string]any{"definition": defs[scheds[len(scheds)/2].Def], "clock_history": scheds[len(scheds)/2].Steps})
 	}
